@@ -24,6 +24,10 @@ from ..rules.taint import TaintEngine
 
 ID = 'C04'
 
+# the generic data-path rules (sa/rules/closure.py) say nothing about this
+# property (scheduling / failure / scratch / path disclosure)
+GENERIC_SCAN = False
+
 EXPLANATION = (
     "Static analysis: a flow-sensitive abstract interpretation over the "
     "statement CFG of every pipeline function (fixpoint, summaries for "
